@@ -487,6 +487,37 @@ impl Watcher {
     }
 }
 
+#[cfg(feature = "verif")]
+impl Watcher {
+    /// Snapshot of the locator cache for the verification harness:
+    /// (locator, dispute txid) entries, blocks oldest-first with their locators, and the height reported per block.
+    #[allow(clippy::type_complexity)]
+    pub fn verif_locator_cache(
+        &self,
+    ) -> (
+        Vec<(Locator, bitcoin::Txid)>,
+        Vec<(bitcoin::BlockHash, Vec<Locator>, Option<usize>)>,
+    ) {
+        let cache = self.locator_cache.lock().unwrap();
+        let (entries, blocks, _, _) = cache.verif_snapshot();
+        (
+            entries
+                .into_iter()
+                .map(|(l, tx)| (l, tx.compute_txid()))
+                .collect(),
+            blocks
+                .into_iter()
+                .map(|(b, ks)| (b, ks, cache.get_height(&b)))
+                .collect(),
+        )
+    }
+
+    /// Last known block height, as used for `start_block`.
+    pub fn verif_height(&self) -> u32 {
+        self.last_known_block_height.load(Ordering::Acquire)
+    }
+}
+
 /// Listen implementation by the [Watcher]. Handles monitoring and reorgs.
 impl chain::Listen for Watcher {
     /// Handles the monitoring process by the [Watcher].
